@@ -191,6 +191,27 @@ pub assume_specification[ char::is_ascii_uppercase ](c: &char) -> (b: bool)
 pub assume_specification[ char::is_ascii_lowercase ](c: &char) -> (b: bool)
     ensures b == is_ascii_lower(*c);
 
+// contracts of neighbouring char predicates, so that an edit that swaps one in is decided rather than unsupported
+pub open spec fn is_ascii_ws(c: char) -> bool { c == ' ' || c == '\t' || c == '\n' || c == '\x0C' || c == '\r' }
+pub uninterp spec fn unicode_alphabetic(c: char) -> bool;
+pub uninterp spec fn unicode_numeric(c: char) -> bool;
+pub uninterp spec fn unicode_uppercase(c: char) -> bool;
+pub uninterp spec fn unicode_lowercase(c: char) -> bool;
+pub assume_specification[ char::is_ascii_whitespace ](c: &char) -> (b: bool)
+    ensures b == is_ascii_ws(*c);
+pub assume_specification[ char::is_ascii_digit ](c: &char) -> (b: bool)
+    ensures b == is_ascii_digit(*c);
+pub assume_specification[ char::is_alphabetic ](c: char) -> (b: bool)
+    ensures b == unicode_alphabetic(c), (c as u32) < 128 ==> b == is_ascii_alpha(c);
+pub assume_specification[ char::is_alphanumeric ](c: char) -> (b: bool)
+    ensures b == (unicode_alphabetic(c) || unicode_numeric(c)), (c as u32) < 128 ==> b == is_ascii_alnum(c);
+pub assume_specification[ char::is_numeric ](c: char) -> (b: bool)
+    ensures b == unicode_numeric(c), (c as u32) < 128 ==> b == is_ascii_digit(c);
+pub assume_specification[ char::is_uppercase ](c: char) -> (b: bool)
+    ensures b == unicode_uppercase(c), (c as u32) < 128 ==> b == is_ascii_upper(c);
+pub assume_specification[ char::is_lowercase ](c: char) -> (b: bool)
+    ensures b == unicode_lowercase(c), (c as u32) < 128 ==> b == is_ascii_lower(c);
+
 pub assume_specification[ String::len ](s: &String) -> (r: usize)
     ensures r as int == byte_len(s@);
 
